@@ -10,6 +10,7 @@ use serde::{Deserialize, Serialize};
 use serde_json::Value;
 
 const VALUES: [u32; 5] = [VER_DRAFT13, 0, 1, 0x8000_000b, 0x8000_000d];
+const STRADDLE: [[u32; 2]; 3] = [[0x0c00_0007, 0x0080_0000], [0x000c_0007, 0x0007_8000], [0x0000_0c07, 0x0700_0080]];
 
 #[derive(Debug, Clone, Serialize, Deserialize, PartialEq, Eq, Hash)]
 pub enum Srv {
@@ -105,7 +106,12 @@ fn check_chunk(ctx: &mut Ctx, c: &Chunk) -> Res {
     };
     let pk = lab.pk.clone();
     let reqs: Vec<Vec<u8>> = c.reqs.iter().enumerate().map(|(k, v)| build(v, k, &lab.srv)).collect();
-    let sends: Vec<(usize, Vec<u8>)> = reqs.iter().enumerate().map(|(k, b)| (k, b.clone())).collect();
+    let mut sends: Vec<(usize, Vec<u8>)> = reqs.iter().enumerate().map(|(k, b)| (k, b.clone())).collect();
+    if c.seed_k % 3 == 1 {
+        // an answerable draft-13 request whose reply cannot be sent (UDP source port 0) is queued in front of the rest
+        let nonce = sha512(&[&b"c12-unsendable"[..], &[c.seed_k][..]])[..32].to_vec();
+        sends.insert(0, (PORT0, build_request(Proto::Ietf, &nonce, 1024, &[VER_DRAFT13], None)));
+    }
     let res = match lab.step(&sends, 0) {
         Ok(r) => r,
         Err(StepErr::Panic(p)) => return ctx.fail(format!("process-events-panic|{}", panic_site(&p)), p),
@@ -181,6 +187,15 @@ fn table(max_len: usize) -> Vec<VerReq> {
             }
         }
     }
+    // version numbers none of which is draft-13 but whose little-endian bytes, laid end to end, contain 0c 00 00 80
+    // across an entry boundary (at byte offsets 1, 2 and 3)
+    for pair in STRADDLE {
+        for srv in [Srv::Absent, Srv::Correct] {
+            out.push(VerReq { vers: Some(pair.to_vec()), srv: srv.clone(), shape: 0 });
+            out.push(VerReq { vers: Some(vec![1, pair[0], pair[1]]), srv: srv.clone(), shape: 0 });
+            out.push(VerReq { vers: Some(vec![pair[0], pair[1], 0x8000_000b]), srv: srv.clone(), shape: 1 });
+        }
+    }
     for b in 0..256u16 {
         out.push(VerReq { vers: Some(vec![VER_DRAFT13]), srv: Srv::BitFlip(b), shape: (b % 2) as u8 });
     }
@@ -212,7 +227,7 @@ fn table(max_len: usize) -> Vec<VerReq> {
 /// sequences in which a list extends, truncates or repeats the previous one (state carried between requests)
 fn sequence() -> impl proptest::strategy::Strategy<Value = Chunk> {
     use proptest::prelude::*;
-    let val = prop::sample::select(VALUES.to_vec());
+    let val = prop::sample::select(VALUES.iter().copied().chain(STRADDLE.iter().flatten().copied()).collect::<Vec<u32>>());
     let list = proptest::collection::vec(val.clone(), 0..=6);
     let srv = prop_oneof![4 => Just(Srv::Absent), 2 => Just(Srv::Correct), 1 => Just(Srv::Wrong), 1 => any::<u16>().prop_map(Srv::BitFlip), 1 => prop::sample::select(vec![0u8, 4, 28, 31, 33, 36, 64]).prop_map(Srv::Len)];
     // op: 0 fresh list, 1 previous + suffix, 2 prefix of previous, 3 previous repeated, 4 previous with draft-13 inserted
